@@ -1068,6 +1068,12 @@ class Summariser:
                 self.assign(item.optional_vars, ("with", v), st, node)
         return self.block(node.body, st)
 
+    def _with_loop_targets(self, st, body, lid):
+        f = st.fork()
+        for nm in self._loop_targets(body):
+            f.env[nm] = ("lv", nm, lid, f.env.get(nm))
+        return f
+
     def _loop_targets(self, body):
         names = set()
         for n in body:
@@ -1178,9 +1184,15 @@ class Summariser:
                 return self.s_While(loop, st)
         lid = st.tick("loop")
         c0 = self.expr(test_node, st)
+        # the test is constantly true only if nothing it mentions is assigned in the body (`terminated = False; while not terminated:` is true on
+        # entry, not for ever)
+        forever = N.is_const(c0) and bool(c0[2]) and not ({x.id for x in ast.walk(test_node) if isinstance(x, ast.Name)} & self._loop_targets(node.body))
+        true_on_entry = N.is_const(c0) and bool(c0[2])
+        if true_on_entry and not forever:
+            c0 = self.expr(test_node, self._with_loop_targets(st, node.body, lid))
         self.emit(st, "LOOP", {"lid": lid, "iter": c0, "kind": "while"}, node)
         results = []
-        if not (N.is_const(c0) and c0[2]):
+        if not true_on_entry:
             z = st.fork()
             self.emit(z, "ASSUME", {"cond": N.mk_not(c0)}, node)
             self.emit(z, "LOOPEND", {"lid": lid, "how": "zero"}, node)
@@ -1199,7 +1211,7 @@ class Summariser:
         for s, out in self.block(node.body, b):
             s.loops = tuple(x for x in s.loops if x != lid)
             if out[0] in ("normal", "continue"):
-                if N.is_const(c0) and c0[2]:
+                if forever:
                     # `while True` never exits normally: the iteration that carries on is not the tail of any path; keep its events
                     # (from the ITER marker on) for rules about what a non-final iteration does
                     evs = list(s.events)
